@@ -225,7 +225,7 @@ pub fn check_seq_io(ops: &[Op], srcs: &[Src], src_bytes: &[Vec<u8>], seed: u64, 
                     bad("timestamp", format!("{tag}: copy has DOS words {:#06x}/{:#06x}, source {:#06x}/{:#06x}", p.date, p.time, sp.date, sp.time), st);
                 }
                 if let Some(sm) = so.mode {
-                    if g.mode.map(|m| m & 0o777) != Some(sm & 0o777) {
+                    if g.mode.map(|m| m & 0o7777) != Some(sm & 0o7777) {
                         bad("permission-bits", format!("{tag}: copy has mode {:?}, source {:o}", g.mode.map(|m| format!("{m:o}")), sm), st);
                     }
                 }
@@ -253,6 +253,10 @@ pub fn check_seq_io(ops: &[Op], srcs: &[Src], src_bytes: &[Vec<u8>], seed: u64, 
 }
 
 fn replay(case: &Value, st: &mut Stats, seed: u64) {
+    if case["kind"] == "sparse-copy" {
+        check_sparse_copy(case["csize"].as_u64().unwrap_or(0), case["usize"].as_u64().unwrap_or(0), case["method"].as_u64().unwrap_or(0) as u16, st, 0);
+        return;
+    }
     let srcs = sources(seed);
     let sb: Vec<Vec<u8>> = srcs.iter().map(|s| s.bytes.clone()).collect();
     let ops: Vec<Op> = case["ops"].as_array().map(|a| a.iter().map(op_from).collect()).unwrap_or_default();
@@ -323,8 +327,135 @@ pub fn run(args: &Args) -> i32 {
         ctx.stats.merge(s);
         ctx.stats.max_depth = 3;
     }
+    // sparse sources with more than 4 GiB of real stored bytes: compressed size beyond 32 bits with an uncompressed size that
+    // fits, both beyond, and (thorough) a stored one; copied between two ordinary entries
+    {
+        let g4: u64 = 1 << 32;
+        let mut cases: Vec<(u64, u64, u16)> = vec![(g4 + 16, 0xffff_ff00, 8)];
+        if thorough {
+            cases.push((g4 + 16, g4 + 1000, 8));
+            cases.push((g4 + 1, g4 + 1, 0));
+            cases.push((g4 - 1, g4 - 2, 93));
+        }
+        let cases_r = &cases;
+        let s = par_for(cases.len() as u64, 1, |t, st| {
+            let (cs, us, m) = cases_r[t as usize];
+            check_sparse_copy(cs, us, m, st, (5 << 40) + t);
+        });
+        ctx.stats.merge(s);
+        ctx.bound("sparse_sources", json!(cases.iter().map(|c| format!("compressed {} / uncompressed {} / method {}", c.0, c.1, c.2)).collect::<Vec<_>>()));
+    }
     ctx.stats.states = ctx.stats.distinct.len() as u64;
     ctx.stats.transitions = ctx.stats.evals;
     ctx.stats.traces = ctx.stats.evals;
     ctx.finish()
+}
+
+/// Raw copy of a sparse source entry with `csize` stored (zero) bytes claiming `usize_` uncompressed bytes under `method`,
+/// between two ordinary entries; the copy's recorded values and stored byte count must equal the source's.
+fn check_sparse_copy(csize: u64, usize_: u64, method: u16, st: &mut Stats, order: u64) {
+    use crate::reference::zipparse::{self, Opts};
+    use crate::sio::sparse::SparseFile;
+    use std::io::{Read, Write};
+    st.evals += 1;
+    let case = || json!({"kind": "sparse-copy", "csize": csize, "usize": usize_, "method": method});
+    let label = format!("sparse source: {csize} stored bytes, claims {usize_} uncompressed, method {method}");
+    let src = crate::props::c08::foreign_big_m(0, csize, usize_, method, false);
+    let sp = match zipparse::parse(&src, &Opts::lenient()) {
+        Ok(p) => p,
+        Err(e) => {
+            st.viol("machinery/sparse-source", format!("{label}: the independent parser rejects the source: {e}"), case(), order);
+            return;
+        }
+    };
+    let mut dst = SparseFile::new();
+    let r = crate::util::guard(|| {
+        let mut zw = zip::ZipWriter::new(&mut dst);
+        zw.start_file("before", FOpts::m(8).to_zip()).map_err(|e| e.to_string())?;
+        zw.write_all(b"an ordinary entry before the copy").map_err(|e| e.to_string())?;
+        {
+            let mut ar = zip::ZipArchive::new(src.clone()).map_err(|e| format!("source open: {e}"))?;
+            let f = ar.by_index_raw(0).map_err(|e| format!("source entry: {e}"))?;
+            zw.raw_copy_file(f).map_err(|e| format!("raw_copy_file: {e}"))?;
+        }
+        zw.start_file("after", FOpts::m(0).to_zip()).map_err(|e| format!("start_file after the copy: {e}"))?;
+        zw.write_all(b"after").map_err(|e| e.to_string())?;
+        zw.finish().map(|_| ()).map_err(|e| format!("finish: {e}"))
+    });
+    match r {
+        Err(p) => {
+            st.viol(format!("sparse-copy/panic/{}", crate::util::panic_site(&p)), format!("{label}: {p}"), case(), order);
+            return;
+        }
+        Ok(Err(e)) => {
+            st.class("SPARSE-COPY-REFUSED");
+            st.viol("sparse-copy/failed", format!("{label}: the copy does not yield an entry: {e}"), case(), order);
+            return;
+        }
+        Ok(Ok(())) => {}
+    }
+    let dp = match zipparse::parse(&dst, &Opts::lenient()) {
+        Ok(p) => p,
+        Err(e) => {
+            st.viol(format!("sparse-copy/unreadable/{}", e.clause), format!("{label}: the independent parser rejects the destination: {e}"), case(), order);
+            return;
+        }
+    };
+    let (s0, d1) = (&sp.entries[0], dp.entries.get(1));
+    let Some(d1) = d1 else {
+        st.viol("sparse-copy/missing", format!("{label}: destination lists {} entries", dp.entries.len()), case(), order);
+        return;
+    };
+    let mut ok = true;
+    if (d1.csize, d1.usize_, d1.crc, d1.method, d1.date, d1.time) != (s0.csize, s0.usize_, s0.crc, s0.method, s0.date, s0.time) || (d1.l_csize, d1.l_usize) != (s0.csize, s0.usize_) {
+        ok = false;
+        st.viol("sparse-copy/metadata", format!("{label}: copy records csize {} size {} crc {:#x} method {} (local sizes {} / {}), source {} {} {:#x} {}", d1.csize, d1.usize_, d1.crc, d1.method, d1.l_csize, d1.l_usize, s0.csize, s0.usize_, s0.crc, s0.method), case(), order);
+    }
+    // through the crate reader: sizes and the stored byte count (all zero)
+    let rr = crate::util::guard(|| {
+        let mut ar = zip::ZipArchive::new(dst.clone()).map_err(|e| format!("open: {e}"))?;
+        let names: Vec<String> = (0..ar.len()).map(|i| ar.by_index_raw(i).map(|f| f.name().to_string()).unwrap_or_default()).collect();
+        let (cs, us, n, zero) = {
+            let mut f = ar.by_index_raw(1).map_err(|e| format!("by_index_raw: {e}"))?;
+            let (cs, us) = (f.compressed_size(), f.size());
+            let mut buf = vec![0u8; 4 << 20];
+            let (mut n, mut zero) = (0u64, true);
+            loop {
+                let k = f.read(&mut buf).map_err(|e| format!("raw read: {e}"))?;
+                if k == 0 {
+                    break;
+                }
+                n += k as u64;
+                zero &= buf[..k].iter().all(|b| *b == 0);
+            }
+            (cs, us, n, zero)
+        };
+        let mut after = vec![];
+        ar.by_index(2).map_err(|e| format!("neighbour: {e}"))?.read_to_end(&mut after).map_err(|e| format!("neighbour read: {e}"))?;
+        let mut before = vec![];
+        ar.by_index(0).map_err(|e| format!("neighbour: {e}"))?.read_to_end(&mut before).map_err(|e| format!("neighbour read: {e}"))?;
+        Ok::<_, String>((names, cs, us, n, zero, before, after))
+    });
+    match rr {
+        Ok(Ok((names, cs, us, n, zero, before, after))) => {
+            if names != ["before", "big", "after"] || cs != csize || us != usize_ || n != csize || !zero {
+                ok = false;
+                st.viol("sparse-copy/reader", format!("{label}: crate reader lists {names:?}, copy has compressed_size {cs}, size {us}, {n} stored bytes (all zero: {zero})"), case(), order);
+            }
+            if before != b"an ordinary entry before the copy" || after != b"after" {
+                ok = false;
+                st.viol("sparse-copy/neighbour-damaged", format!("{label}: the ordinary entries around the copy read back differently"), case(), order);
+            }
+        }
+        Ok(Err(e)) => {
+            ok = false;
+            st.viol("sparse-copy/reader-failed", format!("{label}: {e}"), case(), order)
+        }
+        Err(p) => {
+            ok = false;
+            st.viol(format!("sparse-copy/panic/{}", crate::util::panic_site(&p)), format!("{label}: {p}"), case(), order)
+        }
+    }
+    st.distinct_hash(csize ^ usize_.rotate_left(7) ^ method as u64);
+    st.class(if ok { "sparse-copy-exact" } else { "SPARSE-COPY-MISMATCH" });
 }
